@@ -83,6 +83,10 @@ func drawFlags(r *rng, rules []string, lr bool) []string {
 		if r.chance(1, 8) {
 			names = append(names, "", names[0], " "+names[0])
 		}
+		if r.chance(1, 6) {
+			// what a shell variable that is empty leaves behind
+			names = r.pickNames([][]string{{names[0], ""}, {"", names[0]}, {""}, {names[0], "", names[0]}, {"", ""}})
+		}
 		f = append(f, "-alternate-entrypoints", strings.Join(names, ","))
 	}
 	return f
@@ -105,6 +109,7 @@ func genToolGrammar(r *rng, lr bool) (toolInput, *gen.Grammar) {
 		Labels: r.chance(1, 2), Throws: r.chance(1, 4), Fold: r.chance(1, 2), Unicode: r.chance(1, 2),
 		AnyMatcher: r.chance(1, 2), Display: r.chance(1, 3), NullableLoops: r.chance(1, 4),
 		Unused: r.chance(1, 3), Undefined: r.chance(1, 10), SharedLeaf: r.chance(1, 2), LeftRec: lr, Wide: r.chance(1, 2),
+		DigitNames: r.chance(1, 6), LongLits: r.chance(1, 3), BigClasses: r.chance(1, 3),
 	}
 	g := gen.Generate(r2{r}, cfg)
 	if g == nil {
@@ -224,7 +229,9 @@ func mutateGrammar(r *rng, src []byte) []byte {
 		case 9, 10: // replace a terminal by a lexically tricky one
 			toks := []string{`[\p{L]`, `[\p{L} ]`, `[\pL\pN]`, `[\p{Latin}a-z]i`, `[\p{Nope}]`, `[\pX]`, `[^]`, `[]`, `[\]]`, `[\-a]`, `[a\-]`, `[z-a]`, `[a-]`, `[\x41-\x5a]`, `[\u00e9]`, `[\U0001F600]`, `[\101]`, `'\''`, `'\"'`, "\"\\u00e9\"", "\"\\xff\"", "\"\\uD800\"", "\"\\q\"", "`raw\\n`", "`raw`i", `""`, `''i`, `"a"i`, `.`, `'\777'`, `'\08'`, `[\08]`, `[\p{`, `[\p`, `"\u12"`, `[cf\u212a]i`, `[\u0130]i`, `[\u017f]i`, `"\u212a"i`, `[\u212a-\u212b]i`, `[\ufffd]`, `[\U0010ffff]`, `[\x00]`, `[\x7f-\x80]`,
 				// names of Unicode categories and scripts in all the spellings people try
-				`[\p{Letter}]`, `[\p{Decimal_Number}]`, `[\p{punct}]`, `[\p{L&}]`, `[\p{LC}]`, `[\p{Cn}]`, `[\p{Zs}\p{Han}]`, `[\p{latin}]`, `[\p{Any}]`, `[\p{ASCII}]`, `[\p{Other}]`, `[\p{Mark}]`, `[\p{Number}]`, `[\p{Symbol}]i`, `[\P{L}]`, `[\p{^L}]`, `[\p{Lowercase_Letter}]`, `[\p{Uppercase_Letter}a]`, `[\p{digit}]`, `[\p{Cyrillic}\p{Greek}]`, `[\p{Sc}\p{Letter}]`, `[\p{Punctuation}-]`}
+				`[\p{Letter}]`, `[\p{Decimal_Number}]`, `[\p{punct}]`, `[\p{L&}]`, `[\p{LC}]`, `[\p{Cn}]`, `[\p{Zs}\p{Han}]`, `[\p{latin}]`, `[\p{Any}]`, `[\p{ASCII}]`, `[\p{Other}]`, `[\p{Mark}]`, `[\p{Number}]`, `[\p{Symbol}]i`, `[\P{L}]`, `[\p{^L}]`, `[\p{Lowercase_Letter}]`, `[\p{Uppercase_Letter}a]`, `[\p{digit}]`, `[\p{Cyrillic}\p{Greek}]`, `[\p{Sc}\p{Letter}]`, `[\p{Punctuation}-]`,
+				// a hyphen next to a class escape: a range that never closes
+				`[a-\pL]`, `[a-\p{Lu}]`, `[\pL-z]`, `[a-\pLz]`, `[0-9a-\p{Nd}]i`, `[\x2d-a]`, `[a\x2db]`, `[^a-\pN]`, `[--\pL]`}
 			i := strings.IndexAny(s, "'\"[")
 			if i < 0 || r.chance(1, 3) {
 				i = r.intn(len(s) + 1)
